@@ -322,7 +322,7 @@ def lexLoop : Nat → Bool → List Char → List RTok → Res (List RTok)
         match dropSpace r with
         | '/' :: r' =>
           match scanRegex r' with
-          | some (b, r'') => lexLoop fuel false r'' (.regex (String.ofList ('/' :: b)) :: .op .TokenRegexNotEqual :: acc)
+          | some (b, r'') => lexLoop fuel true r'' (.regex (String.ofList ('/' :: b)) :: .op .TokenRegexNotEqual :: acc)
           | none => .err
         | r' => lexLoop fuel false r' (.op .TokenRegexNotEqual :: acc)
       | '!' :: r => lexLoop fuel false r (.not :: acc)
@@ -335,7 +335,7 @@ def lexLoop : Nat → Bool → List Char → List RTok → Res (List RTok)
         match dropSpace r with
         | '/' :: r' =>
           match scanRegex r' with
-          | some (b, r'') => lexLoop fuel false r'' (.regex (String.ofList ('/' :: b)) :: .op .TokenRegexEqual :: acc)
+          | some (b, r'') => lexLoop fuel true r'' (.regex (String.ofList ('/' :: b)) :: .op .TokenRegexEqual :: acc)
           | none => .err
         | r' => lexLoop fuel false r' (.op .TokenRegexEqual :: acc)
       | '=' :: _ => .na "assignment"
@@ -386,7 +386,7 @@ def lexLoop : Nat → Bool → List Char → List RTok → Res (List RTok)
           | d :: _ =>
             if !isAscii d then .na "lexer-multibyte-after-slash" else
             match scanRegex r with
-            | some (b, r') => lexLoop fuel false r' (.regex (String.ofList ('/' :: b)) :: acc)
+            | some (b, r') => lexLoop fuel true r' (.regex (String.ofList ('/' :: b)) :: acc)
             | none => .err
           | [] => .err
         else if c = '[' || c = ']' || c = '|' || c = '@' then .na "statement-token"
@@ -425,102 +425,62 @@ def setParens : Expr → Expr
   | .bin o l r _ => .bin o l r true
   | e => e
 
+/-- `p.peek().typ == TokenRParen` -/
+def startsRp : List Tok → Bool
+  | .rp :: _ => true
+  | _ => false
+
+/-- `p.expect(TokenRParen)` after a sub-parse -/
+def expectRp {α} (k : α → Expr) : α × List Tok → Res (Expr × List Tok)
+  | (a, .rp :: ts) => .ok (k a, ts)
+  | _ => .err
+
 mutual
 /-- primary() -/
 def primary : Nat → List Tok → Res (Expr × List Tok)
   | 0, _ => .na "fuel"
-  | f + 1, ts =>
-    match ts with
-    | .lp :: ts =>
-      -- n := p.primaryExpr(); Parens = true on a BinaryNode; expect ')'
-      match primary f ts with
-      | .ok (p, ts1) =>
-        match outer f p 0 ts1 with
-        | .ok (n, .rp :: ts2) => .ok (setParens n, ts2)
-        | .ok _ => .err
-        | .err => .err
-        | .na w => .na w
-      | .err => .err
-      | .na w => .na w
-    | .lit a :: ts => .ok (.lit a, ts)
-    | .id s :: .lp :: ts =>
-      -- lfunction
-      match params f ts with
-      | .ok (args, .rp :: ts1) => .ok (.call s args, ts1)
-      | .ok _ => .err
-      | .err => .err
-      | .na w => .na w
-    | .id s :: ts => .ok (.id s, ts)
-    | .op .TokenMinus :: ts =>
-      match primary f ts with
-      | .ok (e, ts1) => .ok (.un .neg e, ts1)
-      | .err => .err
-      | .na w => .na w
-    | .not :: ts =>
-      match primary f ts with
-      | .ok (e, ts1) => .ok (.un .not e, ts1)
-      | .err => .err
-      | .na w => .na w
-    | _ => .err
+  | f + 1, .lp :: ts =>
+    -- n := p.primaryExpr(); Parens = true on a BinaryNode; expect ')'
+    (primary f ts).bind (fun x => (outer f x.1 0 x.2).bind (expectRp setParens))
+  | _ + 1, .lit a :: ts => .ok (.lit a, ts)
+  | f + 1, .id s :: .lp :: ts =>
+    -- lfunction
+    (params f ts).bind (expectRp (Expr.call s))
+  | _ + 1, .id s :: ts => .ok (.id s, ts)
+  | f + 1, .op .TokenMinus :: ts => (primary f ts).bind (fun x => .ok (.un .neg x.1, x.2))
+  | f + 1, .not :: ts => (primary f ts).bind (fun x => .ok (.un .not x.1, x.2))
+  | _ + 1, _ => .err
 /-- the outer loop of precedence(lhs, minP) -/
 def outer : Nat → Expr → Nat → List Tok → Res (Expr × List Tok)
   | 0, _, _, _ => .na "fuel"
-  | f + 1, lhs, minP, ts =>
-    match ts with
-    | .op o :: ts1 =>
-      if prec o ≥ minP then
-        match primary f ts1 with
-        | .ok (rhs, ts2) =>
-          match inner f rhs (prec o) ts2 with
-          | .ok (rhs', ts3) => outer f (.bin o lhs rhs' false) minP ts3
-          | .err => .err
-          | .na w => .na w
-        | .err => .err
-        | .na w => .na w
-      else .ok (lhs, ts)
-    | _ => .ok (lhs, ts)
+  | f + 1, lhs, minP, .op o :: ts1 =>
+    if prec o ≥ minP then
+      (primary f ts1).bind (fun x => (inner f x.1 (prec o) x.2).bind (fun y =>
+        outer f (.bin o lhs y.1 false) minP y.2))
+    else .ok (lhs, .op o :: ts1)
+  | _ + 1, lhs, _, ts => .ok (lhs, ts)
 /-- the inner loop of precedence: while the lookahead binds tighter than `p`, rhs = precedence(rhs, prec look) -/
 def inner : Nat → Expr → Nat → List Tok → Res (Expr × List Tok)
   | 0, _, _, _ => .na "fuel"
-  | f + 1, rhs, p, ts =>
-    match ts with
-    | .op o :: _ =>
-      if prec o > p then
-        match outer f rhs (prec o) ts with
-        | .ok (rhs', ts1) => inner f rhs' p ts1
-        | .err => .err
-        | .na w => .na w
-      else .ok (rhs, ts)
-    | _ => .ok (rhs, ts)
-/-- lparameters(): stops at ')', otherwise lparameter then an optional ',' -/
+  | f + 1, rhs, p, .op o :: ts1 =>
+    if prec o > p then
+      (outer f rhs (prec o) (.op o :: ts1)).bind (fun x => inner f x.1 p x.2)
+    else .ok (rhs, .op o :: ts1)
+  | _ + 1, rhs, _, ts => .ok (rhs, ts)
+/-- lparameters(): stops at ')', otherwise lparameter (= primary, then precedence(n, 0)) and an optional ',' -/
 def params : Nat → List Tok → Res (List Expr × List Tok)
   | 0, _ => .na "fuel"
   | f + 1, ts =>
-    match ts with
-    | .rp :: _ => .ok ([], ts)
-    | _ =>
-      -- lparameter: primary, then precedence(n, 0) when an operator follows (same as the loop not running otherwise)
-      match primary f ts with
-      | .ok (p, ts1) =>
-        match outer f p 0 ts1 with
-        | .ok (a, .comma :: ts2) =>
-          match params f ts2 with
-          | .ok (as, ts3) => .ok (a :: as, ts3)
-          | .err => .err
-          | .na w => .na w
-        | .ok (a, ts2) => .ok ([a], ts2)
-        | .err => .err
-        | .na w => .na w
-      | .err => .err
-      | .na w => .na w
+    if startsRp ts then .ok ([], ts) else
+    (primary f ts).bind (fun x => (outer f x.1 0 x.2).bind (fun y =>
+      match y.2 with
+      | .comma :: ts2 => (params f ts2).bind (fun z => .ok (y.1 :: z.1, z.2))
+      | _ => .ok ([y.1], y.2)))
 end
 
 /-- primaryExpr() -/
 def primaryExpr (f : Nat) (ts : List Tok) : Res (Expr × List Tok) :=
-  match primary f ts with
-  | .ok (p, ts1) => outer f p 0 ts1
-  | .err => .err
-  | .na w => .na w
+  (primary f ts).bind (fun x => outer f x.1 0 x.2)
 
 /-- parseLambda on tokens: primaryExpr then EOF -/
 def parseTokensF (f : Nat) (ts : List Tok) : Res Expr :=
